@@ -19,7 +19,11 @@ for SEED, pid in sorted((root, pid) for root in ("/tmp/seed", "/tmp/seed2", "/tm
             continue
         dst = os.path.join(VERIF, "seeded", "%s-%s" % (pid, v))
         os.makedirs(dst, exist_ok=True)
-        shutil.copyfile(os.path.join(out, v + ".patch.diff"), os.path.join(dst, "patch.diff"))
+        rebased = None
+        if os.path.exists(os.path.join(dst, "meta.json")):
+            rebased = json.load(open(os.path.join(dst, "meta.json"))).get("rebased")
+        if not rebased:  # a patch re-derived after a repair of /repo is kept as committed
+            shutil.copyfile(os.path.join(out, v + ".patch.diff"), os.path.join(dst, "patch.diff"))
         shutil.copyfile(os.path.join(out, v + ".demo.py"), os.path.join(dst, "demo.py"))
         meta = json.load(open(os.path.join(out, v + ".meta.json")))
         # detection on an overlay
@@ -59,6 +63,8 @@ for SEED, pid in sorted((root, pid) for root in ("/tmp/seed", "/tmp/seed2", "/tm
             },
             "check": {"command": "VERIF_OVERLAY=<patched files> /verif/check %s" % pid, "verdict": verdict, "rules": rules, "first_report": first[0] if applies and first else None},
         }
+        if rebased:
+            meta_out["rebased"] = rebased
         json.dump(meta_out, open(os.path.join(dst, "meta.json"), "w"), indent=1)
         rows.append((pid, v, verdict if os.path.exists(os.path.join(dst, "first_verdict.txt")) is False else verdict, ",".join(rules), (meta.get("summary") or "")[:110].replace("\n", " ")))
 with open(os.path.join(VERIF, "seeded", "INDEX.md"), "w") as f:
